@@ -315,10 +315,12 @@ def check_C11(tier, seed):
                       'Proved on the program regenerated from mercier(), for every index type / operator structure / environment: '
                       'DMerc = DWell + DGeod; DWell and d2_volume_d_psi2 equal their closed forms; all three vanish when p2 = 0; and on the '
                       'discrete grid (every n) DGeod <= 0 under positivity of d_l_d_phi, d_phi, nfp, axis_length and non-vanishing etabar, B0, iotaN. '
-                      'NOT proved: the geometric clause (reported V\'\' equals the second psi-derivative of the volume enclosed by the constructed '
-                      'surfaces) -- it needs the O(r^3) geometry in the continuum model; quadrature error.',
-                      gprops=False, seq_obligations=['props/C11_spec.v', 'props/C11.v'],
-                      theorems=['C11_merc_sum', 'C11_well_closed', 'C11_V2_closed', 'C11_vanish_without_pressure', 'C11_geod_nonpositive'])
+                      'Geometric clause (props/C11_volume.v, order r3): with sqrt g the Jacobian series of the returned position vector (props/C01_spec.v, attribute values only), the poloidal averages of its r and r^3 '
+                      'coefficients are spsi G0/B0 and spsi G0/(2 B0) (3 etabar^2 - 4 B20/B0 + 2 (G2 + iota I2)/G0) at every grid point (from the Jacobian identities proved in C01), and their grid quadrature over varphi gives '
+                      'V\' = 4 pi^2 |G0|/B0^2 and V\'\' = the reported d2_volume_d_psi2, for every grid size. Left as definitions: V(r) is the triple integral of |sqrt g|; the grid quadrature stands for the varphi integral.',
+                      gprops=False, seq_obligations=['props/C11_spec.v', 'props/C11.v', 'props/C04_spec.v', 'props/C01_spec.v', 'props/C01.v', 'props/C11_volume.v'], theory_obligations=['Series'],
+                      theorems=['C11_merc_sum', 'C11_well_closed', 'C11_V2_closed', 'C11_vanish_without_pressure', 'C11_geod_nonpositive',
+                                'C11_volume.avg_sqrtg1', 'C11_volume.avg_sqrtg3', 'C11_volume.C11_volume_h0', 'C11_volume.C11_volume_hN'])
 
 
 def check_C13(tier, seed):
@@ -417,10 +419,13 @@ def check_C12(tier, seed):
                       'truncated Jacobian and every accepted linear candidate an exact zero of its theta-derivative. Harness: the code\'s g coefficients equal the triple product e_r.(e_theta x e_phi) of '
                       'the position vector rebuilt from the attributes, and the reported radius equals a brute-force first-zero search. NOT proved: completeness under the float thresholds (1e-7, 1e-8, 1e-13, 1e-5): '
                       'the model shows that an accepted LINEAR candidate smaller than the accepted quadratic one of the same iteration is discarded (synthetic witness only); '
-                      'the Jacobian-coefficient identity as a theorem (pending the series spec of C01).',
-                      gprops=False, gprops_from=[('C08', rs), ('C07', rs)], seq_obligations=['props/C12_quartic.v'], theory_obligations=['RootSelect'],
+                      'Jacobian coefficients (props/C12_jacobian.v): the code\'s g0, g1c, g20, g2c, g2s ARE the coefficients of the triple product e_r.(e_theta x e_phi) of the second-order position vector '
+                      '(series algebra of C01_spec; pure algebra), no other harmonic occurs through r^3 except g1s, and g1s vanishes by the O(r^2) Jacobian identity of C01. For order-r3 objects the code still uses the '
+                      'second-order position vector (the r^3 average of the full Jacobian is g20 + 4 lambda g0: C12_coefficients_r3), as the property states.',
+                      gprops=False, gprops_from=[('C08', rs), ('C07', rs)], seq_obligations=['props/C12_quartic.v', 'props/C04_spec.v', 'props/C01_spec.v', 'props/C01.v', 'props/C12_jacobian.v'], theory_obligations=['RootSelect', 'Series'],
                       theorems=['C12_quartic', 'C12_K_relation', 'RootSelect.rc_is_sentinel_or_candidate', 'RootSelect.rc_minimal', 'RootSelect.no_candidate_sentinel',
-                                'RootSelect.rsing_min_le', 'RootSelect.quadratic_candidate_exact', 'RootSelect.linear_candidate_exact'])
+                                'RootSelect.rsing_min_le', 'RootSelect.quadratic_candidate_exact', 'RootSelect.linear_candidate_exact',
+                                'C12_jacobian.C12_coefficients_r2', 'C12_jacobian.C12_coefficients_r3', 'C12_jacobian.C12_jacobian_h0', 'C12_jacobian.C12_jacobian_hN', 'C12_jacobian.g1s_vanishes'])
 
 
 def check_C06(tier, seed):
@@ -511,7 +516,7 @@ def check_C10(tier, seed):
 # hand-written theories each check depends on (others are not built, so work in progress elsewhere cannot disturb it)
 NEEDS = {
     'C08': ['Expr', 'Equiv', 'Dim'], 'C07': ['Expr', 'Equiv', 'Sign', 'Shift', 'Shallow', 'DiffMat'], 'C05': ['Expr', 'Equiv', 'Sign', 'Shift', 'Shallow', 'DiffMat'],
-    'C04': ['Expr', 'Shallow'], 'C11': ['Expr', 'Shallow'], 'C13': ['Expr', 'Shallow', 'Quadrant', 'Winding'], 'C19': ['Expr', 'Equiv', 'Dim', 'Sign'], 'C17': ['Expr', 'Effects'], 'C12': ['Expr', 'Equiv', 'Dim', 'Sign', 'Shallow', 'RootSelect'], 'C16': ['Expr', 'Effects', 'ObjModel'], 'C09': ['Expr', 'Shallow', 'Pipeline'], 'C03': ['Expr', 'Shallow', 'Pipeline'], 'C06': ['Expr', 'Equiv', 'Sign', 'Shift', 'Replicate', 'DiffMat', 'TrigSum', 'DiffKernel', 'Bracket', 'InterpKernel'], 'C14': ['Expr', 'Shallow', 'TrigSum'], 'C15': ['Expr', 'Shallow', 'TrigSum', 'VmecEmit'], 'C18': ['Expr', 'ObjModel'], 'C10': ['Expr', 'Shallow'], 'C01': ['Expr', 'Shallow', 'Series'], 'C02': ['Expr', 'Shallow', 'Newton'],
+    'C04': ['Expr', 'Shallow'], 'C11': ['Expr', 'Shallow', 'Series'], 'C13': ['Expr', 'Shallow', 'Quadrant', 'Winding'], 'C19': ['Expr', 'Equiv', 'Dim', 'Sign'], 'C17': ['Expr', 'Effects'], 'C12': ['Expr', 'Equiv', 'Dim', 'Sign', 'Shallow', 'RootSelect', 'Series'], 'C16': ['Expr', 'Effects', 'ObjModel'], 'C09': ['Expr', 'Shallow', 'Pipeline'], 'C03': ['Expr', 'Shallow', 'Pipeline'], 'C06': ['Expr', 'Equiv', 'Sign', 'Shift', 'Replicate', 'DiffMat', 'TrigSum', 'DiffKernel', 'Bracket', 'InterpKernel'], 'C14': ['Expr', 'Shallow', 'TrigSum'], 'C15': ['Expr', 'Shallow', 'TrigSum', 'VmecEmit'], 'C18': ['Expr', 'ObjModel'], 'C10': ['Expr', 'Shallow'], 'C01': ['Expr', 'Shallow', 'Series'], 'C02': ['Expr', 'Shallow', 'Newton'],
     'C20': ['Expr', 'Equiv', 'Sign', 'Shift', 'Replicate', 'DiffMat', 'Newton', 'Bracket', 'TrigSum', 'DiffKernel', 'InterpKernel', 'EvenKernel'],
 }
 CHECKS = {'C01': check_C01, 'C10': check_C10, 'C06': check_C06, 'C14': check_C14, 'C15': check_C15, 'C18': check_C18, 'C12': check_C12, 'C16': check_C16, 'C17': check_C17, 'C03': check_C03, 'C19': check_C19, 'C09': check_C09, 'C13': check_C13, 'C11': check_C11, 'C02': check_C02, 'C20': check_C20, 'C04': check_C04, 'C08': check_C08, 'C07': check_C07, 'C05': check_C05}
